@@ -72,11 +72,10 @@ ModSlotWide == \A hi \in HalfSample, lo \in HalfSample, N \in 1..700 : ModSlot(<
 
 WSet == {1, 2, 3, 5, 10, 11, 100}
 WVecs == UNION {[1..n -> WSet] : n \in 1..3}
-CycleCounts == \A W \in WVecs :
-    LET cyc == WeightCycle(W, [i \in DOMAIN W |-> i])
-        sc  == Scaled(W)
-    IN  /\ \A i \in DOMAIN W : CountIn(cyc, i - 1) = (IF sc[i] = 0 THEN 1 ELSE sc[i])
-        /\ \A k \in DOMAIN cyc : cyc[k] \in 0..(Len(W) - 1)
+\* (operator parameters, not LET: TLC caches evaluated arguments but re-evaluates LET bodies under a quantifier)
+CycOK(W, cyc, sc) == /\ \A i \in DOMAIN W : CountIn(cyc, i - 1) = (IF sc[i] = 0 THEN 1 ELSE sc[i])
+                     /\ \A k \in DOMAIN cyc : cyc[k] \in 0..(Len(W) - 1)
+CycleCounts == \A W \in WVecs : CycOK(W, WeightCycle(W, [i \in DOMAIN W |-> i]), Scaled(W))
 \* smooth weighted round robin spreads: with weights <<1,1,2>> nobody is picked twice in a row except by need
 CycleExample == WeightCycle(<<5, 1, 1>>, <<1, 2, 3>>) = WeightCycle(<<50, 10, 10>>, <<1, 2, 3>>)
 
